@@ -8,9 +8,13 @@ from .r_reg import Cases, World, windows
 from .r_reg_spl import spline_view, valid_spline
 
 
+EXTENDED_FROM = 9
+
+
 def _ns(lo, hi, ns):
     full = range(lo, hi + 1)
-    return [n for n in full if ns is None or n in ns]
+    ext = [n for n in (ns or ()) if n > hi and n >= EXTENDED_FROM]   # threshold extension (r_reg.run_jobs), sparse windows
+    return [n for n in full if ns is None or n in ns] + ext
 
 
 def generator_suite(chk, w, rule, maxlen, orders=(0, 1, 2), ns=None, fixed=True):
